@@ -53,6 +53,52 @@ func (a *NilAnalysis) nonNil(fn *ssa.Function, v ssa.Value, f nilFacts) bool {
 			return false
 		}
 		switch ad := x.X.(type) {
+		case *ssa.FreeVar:
+			// a variable of the enclosing function captured by this closure: non-nil when every value the enclosing
+			// function stores into it is (a parameter handed a function literal at every call site, …)
+			if par := fn.Parent(); par != nil {
+				for k, fv := range fn.FreeVars {
+					if fv != ad {
+						continue
+					}
+					for _, pb := range par.Blocks {
+						for _, pi := range pb.Instrs {
+							mc, ok := pi.(*ssa.MakeClosure)
+							if !ok || mc.Fn != ssa.Value(fn) || k >= len(mc.Bindings) {
+								continue
+							}
+							cell, ok := mc.Bindings[k].(*ssa.Alloc)
+							if !ok {
+								return false
+							}
+							stores := 0
+							for _, r := range *cell.Referrers() {
+								switch y := r.(type) {
+								case *ssa.Store:
+									if y.Addr != ssa.Value(cell) || !a.nonNil(par, y.Val, a.at[y]) {
+										return false
+									}
+									stores++
+								case *ssa.MakeClosure:
+									// other closures may assign it
+									if inner, ok := y.Fn.(*ssa.Function); ok {
+										for kk, b := range y.Bindings {
+											if b == ssa.Value(cell) && kk < len(inner.FreeVars) && freeVarWritten(inner, inner.FreeVars[kk], 0) {
+												return false
+											}
+										}
+									}
+								case *ssa.UnOp, *ssa.DebugRef:
+								default:
+									return false
+								}
+							}
+							return stores > 0
+						}
+					}
+				}
+			}
+			return false
 		case *ssa.Global:
 			return a.globN[ad.Name()]
 		case *ssa.FieldAddr:
@@ -315,6 +361,9 @@ func (a *NilAnalysis) condFacts(fn *ssa.Function, cond ssa.Value, taken bool, f 
 					return // the short-circuit constant itself can produce this outcome
 				}
 				continue
+			}
+			if taken && k < len(c.Block().Preds) && knownFalseAt(e, c.Block().Preds[k]) {
+				continue // a flag that is false wherever this edge comes from (tested, or reset, on the way)
 			}
 			rhs, from = e, c.Block().Preds[k]
 			n++
@@ -613,6 +662,10 @@ func (a *NilAnalysis) transfer(fn *ssa.Function, ins ssa.Instruction, f nilFacts
 			a.addRetFields(fn, c, x.Index, "v:"+x.Name(), f)
 		}
 	case ssa.CallInstruction:
+		if _, isDefer := ins.(*ssa.Defer); isDefer {
+			// the deferred function runs when the enclosing function returns: nothing it does happens here
+			return
+		}
 		a.callKills(fn, x, f)
 		if c, ok := ins.(*ssa.Call); ok && c.Call.Signature().Results().Len() == 1 {
 			a.addRetFields(fn, c, 0, "v:"+c.Name(), f)
